@@ -398,6 +398,15 @@ def SensObj.resize (o : SensObj I) (n : Nat) : SensObj I :=
 def SensObj.getSub (o : SensObj I) (s : Nat) : Option I := o.deref (o.sub s)
 def SensObj.getTot (o : SensObj I) : Option I := o.deref o.tot
 
+/-- one turn of the loop cxx:410-420: subset `s` is added to the total -/
+def addSubStep (ops : ImgOps I) (s : Nat) (o : SensObj I) : SensObj I :=
+  match o.deref (o.sub s) with
+  | some v => o.update o.tot (fun a => ops.add a v)
+  | none => o
+
+/-- one turn of the loop cxx:433-434: "set all other pointers the same" -/
+def shareStep (s : Nat) (o : SensObj I) : SensObj I := o.setSub s (o.sub 0)
+
 /-- `set_total_or_subset_sensitivities` (cxx:402-435) -/
 def setTotalOrSubset (ops : ImgOps I) (useSub : Bool) (n : Nat) (o : SensObj I) : SensObj I :=
   if useSub then
@@ -405,36 +414,35 @@ def setTotalOrSubset (ops : ImgOps I) (useSub : Bool) (n : Nat) (o : SensObj I) 
     | none => o
     | some v0 =>
       -- `sensitivity_sptr.reset(subsensitivity_sptrs[0]->clone())`, then the other subsets are added
-      let o := { (o.alloc v0).1 with tot := some (o.alloc v0).2 }
-      forLoop (fun s o =>
-        match o.deref (o.sub s) with
-        | some v => o.update o.tot (fun a => ops.add a v)
-        | none => o) 1 (n - 1) o
+      forLoop (addSubStep ops) 1 (n - 1) { (o.alloc v0).1 with tot := some (o.alloc v0).2 }
   else
     match o.deref o.tot with
     | none => o
     | some vt =>
       -- `subsensitivity_sptrs[0].reset(sensitivity_sptr->clone())`, divided by `num_subsets`; all other pointers the same
-      let o := ((o.alloc vt).1).setSub 0 (some (o.alloc vt).2)
-      let o := o.update (o.sub 0) (fun a => ops.divN a n)
-      forLoop (fun s o => o.setSub s (o.sub 0)) 1 (n - 1) o
+      forLoop shareStep 1 (n - 1)
+        ((((o.alloc vt).1).setSub 0 (some (o.alloc vt).2)).update (some (o.alloc vt).2) (fun a => ops.divN a n))
 
-/-- `compute_sensitivities` (cxx:349-399); `inc s` = what `add_subset_sensitivity(image, s)` adds to the image: the
-    back projection of the efficiencies over subset `s` (`sens` above).  `set_up` has put a new image into
-    `subsensitivity_sptrs[0]` before the call ("preallocate one such that compute_sensitivities knows the size") -/
+/-- one turn of the loop of `compute_sensitivities` (cxx:364-388); `inc s` = what `add_subset_sensitivity(image, s)` adds to the
+    image: the back projection of the efficiencies over subset `s` (`sens` above) -/
+def computeStep (ops : ImgOps I) (useSub : Bool) (inc : Nat → I) (s : Nat) (o : SensObj I) : SensObj I :=
+  let o :=
+    if s = 0 then o.update (o.sub 0) (fun _ => ops.zero)                   -- `std::fill(…, 0)`
+    else if useSub then
+      match o.deref (o.sub 0) with                                          -- `reset(subsensitivity_sptrs[0]->get_empty_copy())`
+      | some _ => ((o.alloc ops.zero).1).setSub s (some (o.alloc ops.zero).2)
+      | none => o
+    else o.setSub s (o.sub 0)                                               -- the same image: everything accumulates in subset 0's
+  o.update (o.sub s) (fun a => ops.add a (inc s))                           -- `add_subset_sensitivity(*subsensitivity_sptrs[s], s)`
+
+/-- "copy full sensitivity (currently stored in subsensitivity[0])" (cxx:390-395) -/
+def moveToTotal (useSub : Bool) (o : SensObj I) : SensObj I :=
+  if useSub then o else { (o.setSub 0 none) with tot := o.sub 0 }
+
+/-- `compute_sensitivities` (cxx:349-399).  `set_up` has put a new image into `subsensitivity_sptrs[0]` before the call
+    ("preallocate one such that compute_sensitivities knows the size") -/
 def computeSensitivities (ops : ImgOps I) (useSub : Bool) (n : Nat) (inc : Nat → I) (o : SensObj I) : SensObj I :=
-  let o := forLoop (fun s o =>
-      let o :=
-        if s = 0 then o.update (o.sub 0) (fun _ => ops.zero)                   -- `std::fill(…, 0)`
-        else if useSub then
-          match o.deref (o.sub 0) with                                          -- `reset(subsensitivity_sptrs[0]->get_empty_copy())`
-          | some _ => ((o.alloc ops.zero).1).setSub s (some (o.alloc ops.zero).2)
-          | none => o
-        else o.setSub s (o.sub 0)                                               -- the same image: everything accumulates in subset 0's
-      o.update (o.sub s) (fun a => ops.add a (inc s))) 0 n o                    -- `add_subset_sensitivity(*subsensitivity_sptrs[s], s)`
-  -- "copy full sensitivity (currently stored in subsensitivity[0])"
-  let o := if useSub then o else { (o.setSub 0 none) with tot := o.sub 0 }
-  setTotalOrSubset ops useSub n o
+  setTotalOrSubset ops useSub n (moveToTotal useSub (forLoop (computeStep ops useSub inc) 0 n o))
 
 /-- what the caller has configured before `set_up`, as far as the sensitivities are concerned -/
 structure SensCfg where
@@ -446,47 +454,53 @@ structure SensCfg where
       `setUpAcceptsSubsets` above) -/
   accepted : Bool
 
+/-- does this `set_up` compute the sensitivities: the member `recompute_sensitivity` is set, or there is nothing to read
+    (cxx:195-204: no image in `subsensitivity_sptrs[0]` after the `resize` and no file name for the kind of sensitivity in use) -/
+def willCompute (c : SensCfg) (o : SensObj I) : Bool :=
+  o.recompute || (((o.resize c.n).sub 0).isNone && ((c.useSub && !c.subName) || (!c.useSub && !c.totName)))
+
+/-- one turn of the loop cxx:218-243: the file of subset `s` is read into a new image (`false`: `read_from_file` throws) -/
+def readStep (files : SensFiles I) (s : Nat) (r : Bool × SensObj I) : Bool × SensObj I :=
+  if !r.1 then r else
+  match files.sub s with
+  | none => (false, r.2)
+  | some v => (true, ((r.2.alloc v).1).setSub s (some (r.2.alloc v).2))
+
+/-- cxx:205-266: the sensitivities are read from file (that the images read have the characteristics of the target is not modelled) -/
+def readSens (ops : ImgOps I) (c : SensCfg) (o : SensObj I) (files : SensFiles I) : Bool × SensObj I :=
+  if c.useSub then
+    if !c.subName then (false, o)
+    else
+      let r := forLoop (readStep files) 0 c.n (true, o)
+      if r.1 then (true, setTotalOrSubset ops true c.n r.2) else r
+  else
+    if !c.totName then (false, o)
+    else match files.tot with
+      | none => (false, o)
+      | some v => (true, setTotalOrSubset ops false c.n { (o.alloc v).1 with tot := some (o.alloc v).2 })
+
+/-- cxx:296-330: the sensitivities just computed are written to file if a name is set -/
+def writeSens (c : SensCfg) (o : SensObj I) (files : SensFiles I) : SensFiles I :=
+  if c.useSub then
+    if c.subName then { files with sub := fun s => if s < c.n then o.getSub s else files.sub s } else files
+  else
+    if c.totName then { files with tot := o.getTot } else files
+
 /-- the sensitivity part of `PoissonLogLikelihoodWithLinearModelForMean::set_up` (cxx:187-340) on an object in ANY state
     (new, or left by earlier `set_up`s) with the files found on disk.  Result: `Succeeded::yes`?, the object, the files -/
 def setUpSens (ops : ImgOps I) (c : SensCfg) (inc : Nat → I) (o : SensObj I) (files : SensFiles I) :
     Bool × SensObj I × SensFiles I :=
-  let o := o.resize c.n
-  -- cxx:195-204: nothing to read → compute
-  let o := if !o.recompute && (o.sub 0).isNone && ((c.useSub && !c.subName) || (!c.useSub && !c.totName))
-           then { o with recompute := true } else o
-  -- cxx:205-266: read from file
-  let rd : Bool × SensObj I :=
-    if o.recompute then (true, o)
-    else if c.useSub then
-      if !c.subName then (false, o)
-      else
-        let r := forLoop (fun s (r : Bool × SensObj I) =>
-            if !r.1 then r else
-            match files.sub s with
-            | none => (false, r.2)                                            -- `read_from_file` throws
-            | some v => (true, ((r.2.alloc v).1).setSub s (some (r.2.alloc v).2))) 0 c.n (true, o)
-        if r.1 then (true, setTotalOrSubset ops true c.n r.2) else r
-    else
-      if !c.totName then (false, o)
-      else match files.tot with
-        | none => (false, o)
-        | some v => (true, setTotalOrSubset ops false c.n { (o.alloc v).1 with tot := some (o.alloc v).2 })
+  let o1 := o.resize c.n
+  -- cxx:195-204: nothing to read → compute (the member stays on)
+  let o2 := if willCompute c o then { o1 with recompute := true } else o1
+  let rd : Bool × SensObj I := if o2.recompute then (true, o2) else readSens ops c o2 files
   if !rd.1 then (false, rd.2, files)
   else if !c.accepted then (false, rd.2, files)
-  else
-    let o := rd.2
-    if o.recompute then
-      -- cxx:283-294: "preallocate one such that compute_sensitivities knows the size"
-      let o := ((o.alloc ops.zero).1).setSub 0 (some (o.alloc ops.zero).2)
-      let o := computeSensitivities ops c.useSub c.n inc o
-      -- cxx:296-330: write to file
-      let files : SensFiles I :=
-        if c.useSub then
-          if c.subName then { files with sub := fun s => if s < c.n then o.getSub s else files.sub s } else files
-        else
-          if c.totName then { files with tot := o.getTot } else files
-      (true, o, files)
-    else (true, o, files)
+  else if rd.2.recompute then
+    -- cxx:283-294: "preallocate one such that compute_sensitivities knows the size"
+    let o3 := computeSensitivities ops c.useSub c.n inc (((rd.2.alloc ops.zero).1).setSub 0 (some (rd.2.alloc ops.zero).2))
+    (true, o3, writeSens c o3 files)
+  else (true, rd.2, files)
 
 /-- closed form of what `compute_sensitivities` leaves in `sensitivity_sptr` when subset sensitivities are not used: the
     subsets accumulated one after the other into an image of zeroes -/
